@@ -1326,8 +1326,10 @@ public:
         pwork_ = parts;
         for (unsigned int p = 0; p < parts; ++p)
         {
+            TLX_VERIF_PS5("enq_count", this, nullptr, p);
             ctx.threads_.enqueue([this, p]() { count(p); });
         }
+        TLX_VERIF_PS5("enq_end", this, nullptr, parts);
     }
 
     /*------------------------------------------------------------------------*/
@@ -1397,8 +1399,10 @@ public:
         pwork_ = parts;
         for (unsigned int p = 0; p < parts; ++p)
         {
+            TLX_VERIF_PS5("enq_dist", this, nullptr, p);
             ctx.threads_.enqueue([this, p]() { distribute(p); });
         }
+        TLX_VERIF_PS5("enq_end", this, nullptr, parts);
     }
 
     /*------------------------------------------------------------------------*/
